@@ -49,7 +49,7 @@ Definition cmp_of (ts : list pt) : option (cmpop * list pt) :=
 
 Definition TOP : nat := slot_Call_onlyarg.      (* inside parentheses / call arguments: any expression of the core *)
 
-(* ---------- the printer of the core (mirrors Unparse.utoks; the equality of the two is evaluated on every run) ---------- *)
+(* ---------- the printer of the core (mirrors Unparse.utoks; ParseTie.tie_all proves the two equal on the core) ---------- *)
 Definition pparen (b : bool) (ts : list pt) : list pt := if b then PK "(" :: ts ++ [PK ")"] else ts.
 
 (* ---------- the parameter list of a lambda ---------- *)
@@ -98,8 +98,8 @@ Definition itoks_l (i : pitem (list pt)) : list pt :=
   | IDStar k => [PK "**"; PN k]
   end.
 
-(* `1.real` would be a float literal followed by a name: the unparser writes (1).real *)
-Definition int_literal (v : expr) : bool := match v with Constant (CInt z) => Z.leb 0 z | _ => false end.
+(* `1.real` would be a float literal followed by a name: the unparser writes (1).real - its own test, on its own text *)
+Definition int_literal (v : expr) : bool := all_digits (render (utoks slot_Attribute_value DQ v)).
 
 Fixpoint pp (slot : nat) (e : expr) {struct e} : list pt :=
   let body :=
@@ -736,6 +736,12 @@ Definition core_check (e : expr) : bool * bool * bool :=
   (core e, pts_eqb (norm (utoks slot_top DQ e)) (pp slot_top e),
    match parse_core (pp slot_top e) with Some e' => expr_same e e' | None => false end).
 
+Definition sx_pt (t : pt) : Sexp.sexp :=
+  match t with
+  | PN i => Sexp.L [Sexp.A "N"; Sexp.sx_ident i]
+  | PL c => Sexp.L [Sexp.A "L"; sx_const c]
+  | PK s => Sexp.L [Sexp.A "K"; Sexp.sx_cps (s2t s)]
+  end.
 Definition pt_of (x : Sexp.sexp) : option pt :=
   match x with
   | Sexp.L [Sexp.A "N"; i] => option_map PN (Sexp.ident_of i)
